@@ -126,6 +126,9 @@ func newPair(s *world.Sim) *pair {
 
 // installPolicies sets the keyed accept/reject and reaction-time policies.
 func (p *pair) installPolicies(n *world.Node) {
+	if us := p.s.Sc.Cfg("answer_ctx_max_us", 0); us > 0 {
+		n.UpdateCtxMax = time.Duration(us) * time.Microsecond
+	}
 	s, sc := p.s, p.s.Sc
 	acceptPct := sc.Cfg("accept_pct", 100)
 	reactMax := time.Duration(sc.Cfg("react_max_us", 200)) * time.Microsecond
